@@ -684,6 +684,22 @@ func runC10(c *Check) {
 				"a submission with a foreign chain id can reach the queue", g, g.MustPrecede(nodeSet(validID), isAdd))
 			c.Decide("C10-R2", "SubmitBatchTxs ⟂ empty-batch-leaves-no-trace", fn, p.InstrPos(adds[0].In), "AddBatch only for a non-empty batch",
 				"an empty batch can reach the queue", g, g.MustPrecede(nodeSet(nonEmpty), isAdd))
+			// an accepted submission is one that reached the queue: success is returned only
+			// through the success of AddBatch (an error of the queue — whatever its kind — is
+			// passed on, never answered with an empty success)
+			{
+				addOK := g.Select(ErrNilEdge(func(t *Term) bool {
+					cv, ok := t.V.(*ssa.Call)
+					return ok && cv.Common().StaticCallee() == add
+				}))
+				if len(addOK) == 0 {
+					c.Bad("C10-R2", "SubmitBatchTxs ⟂ success-only-after-AddBatch-succeeded", fn, p.InstrPos(adds[0].In), "the result of AddBatch is not tested: a batch the queue refused is acknowledged", nil)
+				} else {
+					c.Decide("C10-R2", "SubmitBatchTxs ⟂ success-only-after-AddBatch-succeeded", fn, p.InstrPos(adds[0].In), "a submission is acknowledged only after the queue accepted it",
+						"SubmitBatchTxs can return success although AddBatch returned an error: the batch is acknowledged but was never written to the log or queued — it is never handed out, before or after a restart", g,
+						g.MustFollow(isAdd, nodeSet(addOK), g.SuccessExits()))
+				}
+			}
 			// every other entry point of the sequencer that touches the queue does so only after the id check
 			for _, m := range p.MethodsOf(sub.Signature.Recv().Type()) {
 				if m == sub || m.Object() == nil || !m.Object().Exported() || m.Blocks == nil {
